@@ -140,6 +140,19 @@ def make_schedules(ctx, quick_k, thorough_k, n_random):
     for _ in range(n_random):
         k = ctx.rng.randint(1, kmax + 1)
         sched.append((image_sets(ctx.rng, k), schedule_random(ctx.rng, k)))
+    # directed: four images, the last covers only the first (survivors must keep their arrival order),
+    # and a five-image chain where covered images sit in the middle of the list
+    d4 = [(0, 0, '"1;1;8;8#1~'), (5, 0, '"1;1;8;16#2~'), (0, 3, '"1;1;16;16#3~'), (0, 0, '"1;1;24;32#4~')]
+    d5 = [(5, 0, '"1;1;8;8#1~'), (0, 0, '"1;1;8;8#2~'), (9, 3, '"1;1;8;8#3~'), (0, 0, '"1;1;8;16#4~'), (0, 0, '"1;1;30;40#5~')]
+    for imgs in (d4, d5):
+        k = len(imgs)
+        sched.append((imgs, [0] * k + [2 + i for i in range(k)] + [1] * (k + 1)))
+        sched.append((imgs, [0] * k + [2 + i for i in reversed(range(k))] + [1] * (k + 1)))
+        ev = []
+        for i in range(k): ev += [0, 2 + i, 1]
+        sched.append((imgs, ev + [1]))
+        for _ in range(3):
+            sched.append((imgs, schedule_random(ctx.rng, k)))
     return sched
 
 def correspondence(ctx):
@@ -148,7 +161,7 @@ def correspondence(ctx):
     shape = [gen_payload(ctx.rng, allow_hsl=True) for _ in range(ctx.n(60, 1500))]
     sched = make_schedules(ctx, 3, 4, ctx.n(40, 600))
     if not (ctx.thorough or ctx.escalated):
-        sched = sched[::3]
+        sched = sched[:-12:3] + sched[-12:]
     cases = ['sixel ' + hexs(p) for p in pay] + ['sixelshape ' + hexs(p) for p in shape] + [qcase(i, e) for i, e in sched]
     exprs = ['run_sixel ' + codepoints(p) for p in pay] + ['run_shape ' + codepoints(p) for p in shape] + [qexpr(i, e) for i, e in sched]
     impl = ctx.impl(cases, per_case_timeout=10)
